@@ -128,10 +128,14 @@ let c_smat (m : ((nat * nat) * q) list) =
 let c_stab (m : ((nat * nat) * n) list) =
   ci (List.length m) :: List.concat_map (fun ((r, c), v) -> [cnat r; cnat c; cn v]) m
 
+let dbl_max = q_of_float max_float
 let canon_str = function I s -> s | Qv x -> string_of_q x | Bad s -> s
 let canon_eq ~approx a b = match a, b with
   | I x, I y -> x = y
   | Qv x, Qv y -> q_eq x y || (approx && q_close x y)
+  (* the sum of two duplicate sparse entries may overflow a double; the model's sum is exact *)
+  | Bad "inf", Qv y | Qv y, Bad "inf" -> approx && q_lt dbl_max y
+  | Bad "-inf", Qv y | Qv y, Bad "-inf" -> approx && q_lt y (q_sub q_zero dbl_max)
   | _ -> false
 let rec dumps_agree ~approx a b = match a, b with
   | [], [] -> true
@@ -251,7 +255,7 @@ let build (kind : string) (c : cursor) : ops =
   | "spmodel" -> let x = b_spmodel () in let d = b_spmodel () in
     mk x d d_spmodel (write_spomdp_model show showN) (read_spomdp_model read_double read_ulong) "roundtrip_sparse_pomdp_model" "POMDP::operator>>(SparseModel)" "POMDP::operator<<(SparseModel)" true
   | "ppol" -> let x = b_ppol () in let d = b_ppol () in
-    let o = mk x d d_ppol (write_pomdp_policy show showN at_tok) (read_pomdp_policy read_double read_ulong split_at) "roundtrip_pomdp_policy" "POMDP::operator>>(Policy)" "POMDP::operator<<(Policy)" false in
+    let o = mk x d d_ppol (write_pomdp_policy show showN at_tok) (read_pomdp_policy read_double read_ulong split_at (fun t -> nat_of_int (String.length t))) "roundtrip_pomdp_policy" "POMDP::operator>>(Policy)" "POMDP::operator<<(Policy)" false in
     { o with asis_write = Some (fun () -> write_pomdp_policy_with showN at_tok show6 x);
              valid = Some (fun l -> valid_pomdp_policy_b (ppol_of_dump l)) }
   | k -> failwith ("unknown case kind " ^ k)
@@ -278,6 +282,31 @@ let judge _id (c : cursor) (r : cursor) : bool * string =
       oracle_fail "roundtrip_pomdp_policy" "POMDP::operator<<(Policy)" ("distinct values " ^ show a ^ " and " ^ show b ^ " are both written as " ^ ta);
     if ta <> show a || tb <> show b then disagree "write_pomdp_policy" "POMDP::operator<<(Policy)" ("impl " ^ ta ^ " " ^ tb ^ " model " ^ show a ^ " " ^ show b);
     (true, "digits")
+  end else if kind = "polcopy" then begin
+    (match (if at_end r then "" else peek r) with
+     | "CRASH" | "SANITIZER" | "TIMEOUT" | "THROW" ->
+       oracle_fail "roundtrip_mdp_policy" "MDP::Policy(const_Policy&)" ("loading into a copied policy did not survive: " ^ String.concat " " (rest r))
+     | _ -> ());
+    let ops = build "pol" c in
+    expect r "T"; let toks = next_list r next in
+    expect r "X"; let dx = next_list r next in
+    expect r "D"; let dd = next_list r next in
+    let st = status_of_str (next r) in
+    let dcopy = next_list r next in let dsrc = next_list r next in let dcopy2 = next_list r next in
+    (* O: the copy is an object of its own: loading into it shows the loaded table through the
+       public interface, leaves the source alone, and does not depend on the source's lifetime *)
+    if st <> St_ok then oracle_fail "roundtrip_mdp_policy" "MDP::operator>>(Policy)" "reading back into a copied policy failed";
+    if dcopy <> dx then
+      oracle_fail "roundtrip_mdp_policy" "MDP::Policy(const_Policy&)"
+        ("a policy loaded into a copy-constructed Policy still shows " ^ (if dcopy = dd then "its source's table" else "another table") ^ " through getPolicy()");
+    if dsrc <> dd then oracle_fail "roundtrip_mdp_policy" "MDP::Policy(const_Policy&)" "loading into the copy changed the source";
+    if dcopy2 <> dx then oracle_fail "roundtrip_mdp_policy" "MDP::Policy(const_Policy&)" "the copy changed when its source was destroyed";
+    (* C *)
+    if ops.write_m () <> toks then disagree "write_pol" ops.site_w "writer tokens differ";
+    let (mst, mdump) = ops.read_m toks in
+    if mst <> st || not (dumps_agree ~approx:false (List.map canon_of_impl dcopy) mdump) then
+      disagree "read_pol" ops.site_r "copy-then-load: model and implementation differ";
+    (true, "polcopy")
   end else begin
     (* a crash / sanitizer report / hang / escaped exception while loading is itself a violation:
        a failed load must signal the failure, not bring the program down *)
